@@ -60,6 +60,7 @@ def run(cx):
         if obs.get("k") not in ("ok", "raise"):
             cx.notes.append("fromgo case %d: driver result %s" % (r["id"], str(obs)[:150]))
         gcases.append({"id": r["id"], "ast": r["ast"], "hoist": [], "obs": obs, "src": g["src"] + "\n// then from Go: vm.Call " + ",".join(g["calls"])})
+    cx.alive(sum(1 for c in gcases if c["obs"].get("k") not in ("ok", "raise")), len(gcases), "closures called from Go")
     for label, batch, path in (("closure-scenarios", cases, outp), ("closures-from-go", gcases, None)):
         by_id = {c["id"]: c for c in batch}
         mism, unknown = langlib.tlc_conform(cx, batch, prefix=label.replace("-", "_"))
